@@ -77,10 +77,11 @@ func normPanic(p any) string {
 
 // scripted readers / writers for ReadFrom / WriteTo
 type scriptReader struct {
-	chunks [][]byte
-	err    error
-	neg    bool
-	i      int
+	chunks   [][]byte
+	err      error
+	neg      bool
+	i        int
+	withLast bool // the terminating error / EOF comes together with the last chunk
 }
 
 func (r *scriptReader) Read(p []byte) (int, error) {
@@ -98,6 +99,12 @@ func (r *scriptReader) Read(p []byte) (int, error) {
 		r.chunks[r.i] = r.chunks[r.i][n:]
 	} else {
 		r.i++
+		if r.withLast && r.i >= len(r.chunks) {
+			if r.err != nil {
+				return n, r.err
+			}
+			return n, io.EOF
+		}
 	}
 	return n, nil
 }
@@ -214,6 +221,12 @@ func c19ops(thorough bool) []c19op {
 			return &scriptReader{chunks: [][]byte{[]byte("ab")}, err: errors.New("rd-fail")}
 		}},
 		{"negative count", func() *scriptReader { return &scriptReader{neg: true} }},
+		{"4 bytes together with EOF", func() *scriptReader {
+			return &scriptReader{chunks: [][]byte{[]byte("ab"), []byte("last")}, withLast: true}
+		}},
+		{"3 bytes together with an error", func() *scriptReader {
+			return &scriptReader{chunks: [][]byte{[]byte("xyz")}, err: errors.New("rd-fail"), withLast: true}
+		}},
 	} {
 		r := r
 		add("ReadFrom("+r.name+")", func(b bufAPI) string {
